@@ -12,3 +12,7 @@ def run(ctx, rep):
     sync.rule_O2_done_after_release(mod, rep)
     lock.rule_L1_pairing(mod, rep, ctx.config)
     lock.rule_L2_guarded_by(mod, rep, ctx.config)
+    from ..rules import more3
+    more3.rule_sched_take(mod, rep)
+    more3.rule_worker_loop(mod, rep)
+    more3.rule_queue_order(mod, rep)
